@@ -109,7 +109,7 @@ def obs (st : St) : String :=
   let reqs := st.socks.foldl (fun acc k => acc + k.h.activeReqs) (0 : Int)
   let per := (List.range st.socks.size).map fun i =>
     let h := (st.socks.getD i {}).h
-    s!" h{i}:q={h.sqSize}/{h.sqCount}:a={if h.active then 1 else 0}"
+    s!" h{i}:q={h.sqSize}/{h.sqCount}:a={if h.active then 1 else 0}:s={h.souts.length}"
   s!"obs reqs={reqs}" ++ String.join per
 
 /-- is `dest` usable on a handle of family fam (generator keeps families matched) -/
